@@ -601,6 +601,10 @@ def gen_feature_program(rng):
             di = rng.randrange(nset)
             body.append("default = s%d_%d;" % (k, di))
             dflt = vals[di]
+        elif rng.random() < 0.6:
+            # a boolean feature (no settings block) with a numeric default
+            dflt = rng.choice([0, 1, 1])
+            body.append("default = %d;" % dflt)
         feats.append({"ids": ids, "labels": labels, "settings": settings, "default": dflt})
         text.append("%s { %s }" % (name, " ".join(body)))
     text.append("endtable;")
